@@ -87,9 +87,14 @@ class OptimizerBase(abc.ABC):
             self.grid.update(junction.index, clamp.position)
             return junction.quality
 
-        sensitivities = np.asarray(
-            scipy.optimize.approx_fprime(clamp.params, lambda p: fquality(clamp, junction, p), epsilon=10 * TOL)
-        )
+        try:
+            sensitivities = np.asarray(
+                scipy.optimize.approx_fprime(clamp.params, lambda p: fquality(clamp, junction, p), epsilon=10 * TOL)
+            )
+        except ValueError:
+            # a degenerate cell was met while probing; there is no gradient to speak of,
+            # optimize_clamp() will deal with this junction (skip or rollback)
+            sensitivities = np.zeros(len(initial_params))
 
         clamp.update_params(initial_params)
         self.grid.update(junction.index, clamp.position)
